@@ -85,4 +85,16 @@ example : Afkak.Monitor.C19.stop cfgU trS = false := by decide +kernel
 /-- F: acks = 0, payload B handed to its connection in attempt 1 is sent again after a total failure (F30) -/
 example : Afkak.Monitor.C09.retryOnlyFailed cfgB0 trF = false := by decide +kernel
 
+/-- G (audit C01-6): the client did not account for batch 1 (an answer naming nothing) - that exempts batch 1's send,
+    NOT the send of batch 2, which is acknowledged and never fired -/
+def trG : List Step :=
+  [ { ev := .metaSet 0 0 (some [0]), obs := [], post := sn [] 0 0 true 0 (1/4) [] },
+    { ev := .send 0 0 none [some 3], obs := [.produce 0 [pl ⟨0, 0⟩ [0] [3]]], post := sn [] 0 0 false 1 (1/4) [0] },
+    { ev := .produceDone 0 (.failed [] []), obs := [], post := sn [] 0 0 true 0 (1/4) [0] },
+    { ev := .send 1 0 none [some 3], obs := [.produce 1 [pl ⟨0, 0⟩ [1] [3]]], post := sn [] 0 0 false 1 (1/4) [0, 1] },
+    { ev := .produceDone 1 (.responses [⟨⟨0, 0⟩, 0, 7⟩]), obs := [], post := sn [] 0 0 true 0 (1/4) [0, 1] } ]
+example : Afkak.Monitor.C01.resolvedFired cfgU trG = false := by decide +kernel
+/-- … while the exemption itself is granted: up to the unaccounted answer the trace passes -/
+example : Afkak.Monitor.C01.resolvedFired cfgU (trG.take 4) = true := by decide +kernel
+
 end Afkak.Producer.AuditTraces
